@@ -101,8 +101,12 @@ def run(prog, chk):
     if len(loops) != 2:
         raise AnalysisBroken('reset: expected an accumulation loop and an update loop, found %d loops' % len(loops))
     aliases = KP.size_aliases(rs.body, amp)
-    sw1 = KP.state_sweep(loops[0], amp, bit_ids, aliases)
-    sw2 = KP.state_sweep(loops[1], amp, bit_ids, aliases)
+    try:
+        sw1 = KP.state_sweep(loops[0], amp, bit_ids, aliases, rs.body)
+        sw2 = KP.state_sweep(loops[1], amp, bit_ids, aliases, rs.body)
+    except KP.BadSweep as ex:
+        chk.ob('R04.1', rs, rs.ln, False, 'reset does not sweep the whole state vector: %s' % ex, key='weights')
+        return
     l1 = sw1
     l2 = sw2
     if l1 is None or l2 is None:
